@@ -91,6 +91,10 @@ Record tagscan := mkScan {
 }.
 
 Definition scan_tag (st : tagscan) (tag : str) : res tagscan :=
+  (* "if not tag: continue": an empty AGP column is not a tag (repaired; the
+     pinned commit took it for a falsy haplotype, which made the outcome depend
+     on the iteration order of the tag set) *)
+  match tag with [] => Ok st | _ :: _ =>
   if str_eqb tag (s "Painted") then
     Ok (mkScan (ts_name st) (ts_hap st) true (ts_rank st) (ts_primary st) (ts_target st) (ts_lc st))
   else if str_eqb tag (s "Target") then
@@ -108,7 +112,8 @@ Definition scan_tag (st : tagscan) (tag : str) : res tagscan :=
     else
       let '(h, lc) := get_set_haplotype (ts_lc st) tag in
       Ok (mkScan (ts_name st) (Some h) (ts_painted st) (ts_rank st) (ts_primary st) (ts_target st) lc)
-  else Ok st.
+  else Ok st
+  end.
 
 (* make_scaffold_name(scaffold, fragment_tags): [sc_name0] = scaffold.name,
    [rows] = scaffold.rows, [tags] = the tag set (as a duplicate-free list) *)
